@@ -581,6 +581,15 @@ def ancestor_walks(f: Func) -> list[dict]:
             out.append(dict(loop=loop, var=var, to_root=False, early=[], conditional_step=False, bounded=norm(loop.iter)))
             continue
         to_root = norm(loop.test) in (f"{var} is not None", var, f"{var} != None")
+        if not to_root and isinstance(loop.test, ast.BoolOp) and isinstance(loop.test.op, ast.And) and norm(loop.test.values[0]) in (f"{var} is not None", var, f"{var} != None"):
+            # `while cur is not None and cur.type not in ACCEPT: cur = cur.parent` + `return cur is not None`: the loop stops
+            # below the root only AT an accepted kind, and the result says so - the same climb with the acceptance in the test
+            rest = loop.test.values[1:]
+            neg_kind = all(isinstance(v, ast.Compare) and len(v.ops) == 1 and isinstance(v.ops[0], (ast.NotIn, ast.NotEq)) and isinstance(v.left, ast.Attribute) and v.left.attr == "type"
+                           and isinstance(v.left.value, ast.Name) and v.left.value.id == var for v in rest)
+            after = [r for r in ast.walk(f.node) if isinstance(r, ast.Return) and r.lineno > loop.end_lineno and r.value is not None]
+            if neg_kind and after and all(norm(r.value) in (f"{var} is not None", f"{var} != None", f"bool({var})") for r in after):
+                to_root = True
         early = [n for n in ast.walk(loop) if isinstance(n, ast.Break) or (isinstance(n, ast.Return) and not (isinstance(n.value, ast.Constant) and n.value.value is True))]
         # leaving at the root node kind itself is not "early": nothing is above it
         root_ifs = [n for n in ast.walk(loop) if isinstance(n, ast.If) and isinstance(n.test, ast.Compare) and len(n.test.ops) == 1 and isinstance(n.test.ops[0], (ast.Eq, ast.In))
